@@ -185,6 +185,8 @@ func orStr(a, b string) string {
 // Close tears the tunnel down the clean way and waits until both ends have finished.
 func (t *Tun) Close() {
 	w := t.W
+	w.Drain()
+	w.Log(Event{Actor: "env", Op: "clean-close"})
 	w.Point("env:close")
 	if !t.Cfg.Reverse {
 		if t.Ch != nil {
